@@ -7,7 +7,9 @@
 //!     lexer/parser, runs the REAL detect_serde_usage / detect_async_usage / detect_web_usage and
 //!     cli::commands::collect_rust_crates, and prints the uniform tree of coq/C15/Model.v
 //!     ([kind, tag, label, [[slot, child]..]]) built from the real AST.  A node's trigger bits are the
-//!     real scanners' verdicts on that node alone (children removed) in a scanned position.
+//!     union of (a) the real scanners' verdicts on that node alone and (b) a definition taken from the AST and
+//!     the incan_core tables only (any @derive decorator / any argument, is_async, await, builtin and surface
+//!     function names, `web` imports, @route), so a scanner that overlooks a trigger disagrees with the tree.
 //! `vharness run c15 build` — stdin: one JSON {"entry": file, "out": dir} per line.  Calls the real
 //!     cli::commands::build_file (a stub `cargo` must be first on PATH), then prints
 //!     `@@C15 {"ok","err","manifest","roots":[..],"mods":[..]}`: Cargo.toml text and, from the
@@ -305,6 +307,15 @@ impl Conv {
                 let mut kind = "E.Call";
                 if let Expr::Ident(name) = &f.node {
                     tag = self.call_bits(name);
+                    // independent of the scanners: the builtin / surface tables of incan_core
+                    match incan_core::lang::builtins::from_str(name.as_str()) {
+                        Some(incan_core::lang::builtins::BuiltinFnId::JsonStringify) => tag |= 1,
+                        Some(incan_core::lang::builtins::BuiltinFnId::Sleep) => tag |= 2,
+                        _ => {}
+                    }
+                    if incan_core::lang::surface::functions::from_str(name.as_str()).is_some() {
+                        tag |= 2;
+                    }
                     // the async scanner returns early (arguments unscanned) for surface functions
                     if incan_core::lang::surface::functions::from_str(name.as_str()).is_some() {
                         kind = "E.CallSurface";
@@ -342,7 +353,7 @@ impl Conv {
                 "E.MethodCall"
             }
             Expr::Await(x) => {
-                tag = self.await_bits;
+                tag = self.await_bits | 2;
                 k.push(("0".to_string(), self.expr(&x.node)));
                 "E.Await"
             }
